@@ -54,6 +54,13 @@ func NewMemFS() FullFS {
 	}
 }
 
+// isDotName reports whether base, the filepath.Base of a path, names an existing directory (the
+// directory itself, its parent, or the root) rather than an entry that could be created in it.
+// Path components are looked up literally, so such a base must never become the name of a child.
+func isDotName(base string) bool {
+	return base == "." || base == ".." || base == pathSep
+}
+
 // getNode returns the node for the given path. If the path is not found, it
 // returns an error.
 func (m *memFS) getNode(path string) (*node, error) {
@@ -128,7 +135,7 @@ func (m *memFS) Mkdir(path string, perms fs.FileMode) error {
 	// see if it exists
 	anode.mu.Lock()
 	defer anode.mu.Unlock()
-	if base := filepath.Base(path); base == "." || base == ".." || base == pathSep {
+	if isDotName(filepath.Base(path)) {
 		// the directory itself, its parent, or the root: they exist, and must not become literal names
 		return os.ErrExist
 	}
@@ -253,6 +260,11 @@ func (m *memFS) openFile(name string, flag int, perm fs.FileMode, linkCount int)
 		return nil, fmt.Errorf("is a directory")
 	}
 	if flag&os.O_CREATE != 0 && !ok {
+		if isDotName(base) {
+			// ".", ".." and "/" name directories, not a file that could be created
+			parentAnode.mu.Unlock()
+			return nil, fmt.Errorf("is a directory")
+		}
 		// create the file
 		anode = &node{
 			name:   base,
@@ -339,6 +351,9 @@ func (m *memFS) Mknod(path string, mode uint32, dev int) error {
 	}
 	anode.mu.Lock()
 	defer anode.mu.Unlock()
+	if isDotName(base) {
+		return os.ErrExist
+	}
 	if _, ok := anode.children[base]; ok {
 		return os.ErrExist
 	}
@@ -418,6 +433,9 @@ func (m *memFS) Symlink(oldname, newname string) error {
 	}
 	anode.mu.Lock()
 	defer anode.mu.Unlock()
+	if isDotName(base) {
+		return os.ErrExist
+	}
 	if _, ok := anode.children[base]; ok {
 		return os.ErrExist
 	}
@@ -447,6 +465,9 @@ func (m *memFS) Link(oldname, newname string) error {
 	}
 	anode.mu.Lock()
 	defer anode.mu.Unlock()
+	if isDotName(base) {
+		return os.ErrExist
+	}
 	if _, ok := anode.children[base]; ok {
 		return os.ErrExist
 	}
